@@ -27,7 +27,7 @@ func Make(tag string) Mid1 {
 // (No loops: loops make the SSA-to-AST conversion panic for some random draws,
 // which is a separate matter from the properties this corpus serves.)
 //
-//garble:controlflow flatten_passes=1 junk_jumps=2 block_splits=2
+//garble:controlflow flatten_passes=1
 func Scramble(n int) int {
 	// Variables of several types, so that the rewritten function declares
 	// several groups of variables.
